@@ -393,43 +393,50 @@ def check_dsafull(bits, acc):
 # blinding factors: the process RNG (seam Crypto.Random.urandom) answers with a boundary tape
 # ---------------------------------------------------------------------------
 def check_blind(which, kind, acc):
-    ck = _Chk("blinding/" + which, "%s signing with the process RNG answering from tape[%s]" % (which, kind),
-              {"part": "consumer", "spec": ["blind", which, kind]}, acc)
+    full = which
+    which, _, arg = which.partition("/")          # "ECDSA" (= p256), "ECDSA/p384", "DSA/2048", "RSA/1031", ...
+    ck = _Chk("blinding/" + which, "%s signing with the process RNG answering from tape[%s]" % (full, kind),
+              {"part": "consumer", "spec": ["blind", full, kind]}, acc)
     if which == "ECDSA":
         from Crypto.PublicKey import ECC
         from Crypto.Signature import DSS
         from Crypto.Hash import SHA256
         from ..ref import ec as REC
-        c = REC.CURVES["p256"]
+        cv = arg or "p256"
+        c = REC.CURVES[cv]
         order = c.order
-        d = 1 + seeded_int("c18/blind-key", 320) % (order - 1)
-        key = ECC.construct(curve="p256", d=d)
+        d = 1 + seeded_int("c18/blind-key" + ("/" + arg if arg else ""), order.bit_length() + 64) % (order - 1)
+        key = ECC.construct(curve=cv, d=d)
         h = SHA256.new(b"C18 blinding")
         op = lambda f: DSS.new(key, "deterministic-rfc6979").sign(h)  # noqa
         r, s = REC.ecdsa_sign_rfc6979(c, d, h.digest(), "sha256")[-2:]
-        exp = r.to_bytes(32, "big") + s.to_bytes(32, "big")
+        ol = (order.bit_length() + 7) // 8
+        exp = r.to_bytes(ol, "big") + s.to_bytes(ol, "big")
     elif which == "DSA":
         from Crypto.Signature import DSS
         from Crypto.Hash import SHA256
         from ..keys import dsa_key
         from ..ref import dsa as RD
-        key = dsa_key(1024, 160)
+        Lp = int(arg or 1024)
+        key = dsa_key(Lp, dict(DSA_SIZES)[Lp])
         order = int(key.q)
         h = SHA256.new(b"C18 blinding")
         op = lambda f: DSS.new(key, "deterministic-rfc6979").sign(h)  # noqa
         k_, r, s = RD.dsa_sign_deterministic(int(key.p), order, int(key.g), int(key.x), h.digest(), "sha256")
-        exp = r.to_bytes(20, "big") + s.to_bytes(20, "big")
+        ol = (order.bit_length() + 7) // 8
+        exp = r.to_bytes(ol, "big") + s.to_bytes(ol, "big")
     else:
         from Crypto.Signature import pkcs1_15
         from Crypto.Hash import SHA256
         from ..keys import rsa_key
         from ..ref import rsa as RR
-        key = rsa_key(1024)
+        key = rsa_key(int(arg or 1024))
         order = int(key.n)
         h = SHA256.new(b"C18 blinding")
         op = lambda f: pkcs1_15.new(key).sign(h)  # noqa
-        em = RR.emsa_pkcs1_v15_encode("sha256", h.digest(), 128)
-        exp = pow(int.from_bytes(em, "big"), int(key.d), order).to_bytes(128, "big")
+        kl = (order.bit_length() + 7) // 8
+        em = RR.emsa_pkcs1_v15_encode("sha256", h.digest(), kl)
+        exp = pow(int.from_bytes(em, "big"), int(key.d), order).to_bytes(kl, "big")
     head, lit = boundary_heads(order - 2)[kind]
     label = _label("blind", which, kind)
     acc.count("evaluations")
@@ -448,8 +455,8 @@ def check_blind(which, kind, acc):
         acc.observe("%s blinding factor is drawn from an interval other than [1, order)" % which)
     elif lit is not None and b[3] != 1 + lit:
         return ck.viol("system-rng-draw/wrong-offset", "blinding factor for boundary tape is %s, expected 1+%s" % (short(b[3]), short(lit)))
-    acc.seen("classes", ("blinding", which, "accepted" if lit is not None and "," not in kind else "rejected-first"))
-    acc.seen("configs", ("blind", which, kind))
+    acc.seen("classes", ("blinding", full, "accepted" if lit is not None and "," not in kind else "rejected-first"))
+    acc.seen("configs", ("blind", full, kind))
 
 
 # ---------------------------------------------------------------------------
@@ -545,6 +552,484 @@ def check_bigrandom(be, bits, exact, kind, acc):
     acc.seen("configs", ("bigrandom", be, bits, exact, kind))
 
 
+# ---------------------------------------------------------------------------
+# further consumers (thorough tier): Miller-Rabin bases, prime generators, ElGamal, HPKE ephemeral keys
+# ---------------------------------------------------------------------------
+def legacy_heads(nm):
+    """boundary heads for Crypto.Util.number.getRandomRange-style sampling of [0, nm]: getRandomInteger(bits) reads the
+    bits>>3 LOW bytes first and then, when bits%8 != 0, one byte whose HIGH bits%8 bits become the top bits."""
+    bits = nm.bit_length()
+    nlow, odd = bits >> 3, bits & 7
+    nb = nlow + (1 if odd else 0)
+    top = (1 << bits) - 1
+
+    def enc(v, d=False):
+        low = (v & ((1 << (8 * nlow)) - 1)).to_bytes(nlow, "big")
+        if not odd:
+            return low
+        tb = (v >> (8 * nlow)) << (8 - odd)
+        if d:
+            tb |= (1 << (8 - odd)) - 1
+        return low + bytes([tb])
+    H = {"zero": (enc(0), 0), "bound": (enc(nm), nm), "ones": (b"\xff" * nb, nm if nm == top else None)}
+    if nm >= 1:
+        H["one"] = (enc(1), 1)
+        H["bound-1"] = (enc(nm - 1), nm - 1)
+    if nm + 1 <= top:
+        H["bound+1"] = (enc(nm + 1), None)
+        H["bound+1,ones,bound"] = (enc(nm + 1) + b"\xff" * nb + enc(nm), nm)
+    if odd:
+        H["zero/dirty-low-bits"] = (enc(0, True), 0)
+        H["bound/dirty-low-bits"] = (enc(nm, True), nm)
+        if nm + 1 <= top:
+            H["bound+1/dirty-low-bits,zero"] = (enc(nm + 1, True) + enc(0), 0)
+    return H
+
+
+def legacy_kinds(nm):
+    return sorted(legacy_heads(nm))
+
+
+def ref_legacy_range(nm, rd):
+    while True:
+        v = T.ref_legacy_range_attempt(nm, rd)
+        if v is not None:
+            return v
+
+
+def _mr_number(which):
+    """-> (n, is it prime)"""
+    from ..ref import ec as REC
+    from ..keys import rsa_components
+    if which in P_CURVES:
+        return REC.CURVES[which].order, True
+    if which == "m521":
+        return (1 << 521) - 1, True
+    c = rsa_components(1024)
+    if which == "rsa-p":
+        return c["p"], True
+    if which == "rsa-n":
+        return c["n"], False
+    raise ValueError(which)
+
+
+MR_NUMBERS = ("p192", "p256", "p521", "m521", "rsa-p", "rsa-n")
+
+
+def check_mrbig(which, kind, acc):
+    """Crypto.Math.Primality.miller_rabin_test at full size: the first base is the boundary value"""
+    from Crypto.Math import Primality
+    n, prime = _mr_number(which)
+    head, lit = boundary_heads(n - 4)[kind]
+    label = _label("mrbig", which, kind)
+    ck = _Chk("Primality.miller_rabin_test", "Primality.miller_rabin_test(%s, 3, randfunc=tape[%s])" % (which, kind),
+              {"part": "consumer", "spec": ["mrbig", which, kind]}, acc)
+    op = lambda f: int(Primality.miller_rabin_test(n, 3, randfunc=f))  # noqa
+    acc.count("evaluations", 2)
+    r1, f1, calls, sysn = observe(op, head, label)
+    r2, f2, calls2, _ = observe(op, head, label)
+    if f1.total == 0:
+        return ck.viol("randfunc-ignored", "the supplied entropy source was never read")
+    bases = [c[3] for c in calls if c[0] == "random_range"]
+    if r1 != r2 or bases != [c[3] for c in calls2 if c[0] == "random_range"]:
+        return ck.viol("not-a-function-of-the-tape", "the same tape twice gave different bases or verdicts")
+    for b in bases:
+        if not 2 <= b <= n - 2:
+            return ck.viol("out-of-range", "a Miller-Rabin base outside [2, n-2] was drawn (base-2=%s, n-2-base=%s)" % (short(b - 2), short(n - 2 - b)))
+    if not ck.calls(calls):
+        return
+    if lit is not None and bases[0] != 2 + lit:
+        return ck.viol("wrong-offset", "boundary tape must give the base 2 + %s, got %s" % (short(lit), short(bases[0])))
+    if r1 != (1 if prime else 0):
+        return ck.viol("wrong-verdict", "verdict %d for a %s" % (r1, "prime" if prime else "composite without small factors"))
+    if len(bases) != (3 if prime else 1):
+        acc.observe("miller_rabin_test drew %d bases for %s" % (len(bases), which))
+    acc.seen("classes", ("Primality.miller_rabin_test/full-size", which, "accepted" if lit is not None and "," not in kind else "rejected-first",
+                         "dirty" in kind))
+    acc.seen("configs", ("mrbig", which, kind))
+
+
+def check_isprime(which, kind, acc):
+    """Crypto.Util.number.isPrime / _rabinMillerTest at full size: bases from getRandomRange(2, n, randfunc)"""
+    from Crypto.Util import number
+    from ._c18_targets import _NumberSpy
+    n, prime = _mr_number(which)
+    nm = n - 3
+    head, lit = legacy_heads(nm)[kind]
+    label = _label("isprime", which, kind)
+    ck = _Chk("number.isPrime", "Crypto.Util.number.isPrime(%s, randfunc=tape[%s])" % (which, kind),
+              {"part": "consumer", "spec": ["isprime", which, kind]}, acc)
+
+    def op(f):
+        with _NumberSpy("getRandomRange") as spy:
+            r = number.isPrime(n, 1e-6, f)
+        return r, [x for x in spy.seen]
+    acc.count("evaluations", 2)
+    (r1, seen1), f1, _, sysn = observe(op, head, label)
+    (r2, seen2), f2, _, _ = observe(op, head, label)
+    if f1.total == 0:
+        return ck.viol("randfunc-ignored", "the supplied entropy source was never read")
+    if r1 != r2 or seen1 != seen2:
+        return ck.viol("not-a-function-of-the-tape", "the same tape twice gave different bases or verdicts")
+    fr = Feed(head, label)
+    for name, args, a in seen1:
+        acc.count("recorded_legacy_draws")
+        if args[:2] != (2, n) or not 2 <= a <= n - 1:
+            return ck.viol("out-of-range", "a Rabin-Miller base outside [2, n-1] was drawn (base-2=%s, n-1-base=%s)" % (short(a - 2), short(n - 1 - a)))
+        exp = 2 + ref_legacy_range(nm, fr)
+        if a != exp:
+            return ck.viol("differs-from-reference-rejection-sampler", "a base differs from the plain (legacy byte order) rejection sampler "
+                           "on the same bytes")
+    if fr.total != f1.total:
+        acc.observe("number.isPrime consumed a different number of bytes than the reference rejection sampler")
+    if lit is not None and seen1[0][2] != 2 + lit:
+        return ck.viol("wrong-offset", "boundary tape must give the base 2 + %s" % short(lit))
+    if len(set(x[2] for x in seen1)) != len(seen1):
+        acc.observe("number._rabinMillerTest drew the same base twice at full size")
+    if bool(r1) != prime:
+        return ck.viol("wrong-verdict", "isPrime says %r for a %s" % (r1, "prime" if prime else "composite without small factors"))
+    if sysn:
+        acc.observe("number.isPrime with randfunc consulted the process-wide RNG")
+    acc.seen("classes", ("number.isPrime/full-size", which, "accepted" if lit is not None and "," not in kind else "rejected-first", "dirty" in kind))
+    acc.seen("configs", ("isprime", which, kind))
+
+
+def _value_head(kind, nb, label):
+    return {"zero": bytes(nb), "ones": b"\xff" * nb, "ascending": bytes((i + 1) & 255 for i in range(nb)),
+            "seeded": seeded(label, nb)}[kind]
+
+
+def check_probprime(bits, kind, acc, safe=False):
+    from Crypto.Math import Primality
+    from ..ref import nt
+    qbits = bits - 1 if safe else bits
+    head = _value_head(kind, (qbits + 7) // 8, "c18/probprime/%d" % qbits)
+    label = _label("safeprime" if safe else "probprime", bits, kind)
+    fn = "generate_probable_safe_prime" if safe else "generate_probable_prime"
+    ck = _Chk("Primality." + fn, "Primality.%s(exact_bits=%d, randfunc=tape[%s])" % (fn, bits, kind),
+              {"part": "consumer", "spec": ["safeprime" if safe else "probprime", bits, kind]}, acc)
+    op = lambda f: int(getattr(Primality, fn)(exact_bits=bits, randfunc=f))  # noqa
+    acc.count("evaluations", 2)
+    p, f1, calls, sysn = observe(op, head, label)
+    p2, f2, _, _ = observe(op, head, label)
+    if f1.total == 0:
+        return ck.viol("randfunc-ignored", "the supplied entropy source was never read")
+    if p != p2:
+        return ck.viol("not-a-function-of-the-tape", "the same tape twice gave two different primes")
+    if p.bit_length() != bits:
+        return ck.viol("out-of-range", "the result has %d bits, documented: 2^(bits-1) < p < 2^bits" % p.bit_length())
+    if not nt.is_prime(p) or (safe and not nt.is_prime(p >> 1)):
+        return ck.viol("not-prime", "the result %s is not a %sprime" % (short(p), "safe " if safe else ""))
+    if not ck.calls(calls):
+        return
+    cands = [c[3] | 1 for c in calls if c[0] == "random" and c[1].get("exact_bits") == qbits]
+    if not cands or cands[0] != ref_random(qbits, True, T.Reader(head)) | 1:
+        return ck.viol("internal-draw/differs-from-reference-rejection-sampler", "the first candidate is not the boundary value on the tape")
+    if (p >> 1 if safe else p) not in cands:
+        return ck.viol("prime-not-drawn-from-the-tape", "the result is not one of the candidates Integer.random drew from the tape")
+    if not safe and p != cands[-1]:
+        return ck.viol("prime-not-drawn-from-the-tape", "the result is not the last candidate drawn")
+    if sysn:
+        acc.observe("Primality.%s with randfunc consulted the process-wide RNG (result unaffected)" % fn)
+    acc.count("prime_candidates_checked", len(cands))
+    acc.seen("classes", ("Primality." + fn, bits % 8, kind))
+    acc.seen("configs", ("safeprime" if safe else "probprime", bits, kind))
+
+
+def check_getprimebig(N, kind, acc):
+    from Crypto.Util import number
+    from ..ref import nt
+    from ._c18_targets import _NumberSpy
+    nbits = N - 1
+    nb = (nbits >> 3) + (1 if nbits & 7 else 0)
+    head = _value_head(kind, nb, "c18/getprime/%d" % N)
+    label = _label("getprimebig", N, kind)
+    ck = _Chk("number.getPrime", "Crypto.Util.number.getPrime(%d, randfunc=tape[%s])" % (N, kind),
+              {"part": "consumer", "spec": ["getprimebig", N, kind]}, acc)
+
+    def op(f):
+        with _NumberSpy("getRandomNBitInteger", "getRandomRange") as spy:
+            r = number.getPrime(N, f)
+        return int(r), list(spy.seen)
+    acc.count("evaluations", 2)
+    (p, seen), f1, _, sysn = observe(op, head, label)
+    (p2, seen2), f2, _, _ = observe(op, head, label)
+    if f1.total == 0:
+        return ck.viol("randfunc-ignored", "the supplied entropy source was never read")
+    if p != p2 or seen != seen2:
+        return ck.viol("not-a-function-of-the-tape", "the same tape twice gave two different primes (or internal draws)")
+    if p.bit_length() != N:
+        return ck.viol("out-of-range", "getPrime(%d) returned a %d-bit number" % (N, p.bit_length()))
+    if not nt.is_prime(p):
+        return ck.viol("not-prime", "the result %s is not a prime" % short(p))
+    cands = [x[2] for x in seen if x[0] == "getRandomNBitInteger"]
+    for c in cands:
+        if c.bit_length() != N:
+            return ck.viol("internal-draw/out-of-range", "getRandomNBitInteger(%d) returned a %d-bit number" % (N, c.bit_length()))
+    first = T.ref_legacy_integer(N - 1, T.Reader(head)) | (1 << (N - 1))
+    if not cands or cands[0] != first:
+        return ck.viol("internal-draw/differs-from-reference", "the first candidate is not the boundary value on the tape")
+    if p != cands[-1] | 1:
+        return ck.viol("prime-not-drawn-from-the-tape", "the result is not the last candidate drawn (| 1)")
+    for name, args, a in seen:
+        if name == "getRandomRange":
+            acc.count("recorded_legacy_draws")
+            if not args[0] <= a < args[1]:
+                return ck.viol("internal-draw/out-of-range", "getRandomRange(2, n) returned a value outside [2, n-1]")
+    if sysn:
+        acc.observe("number.getPrime with randfunc consulted the process-wide RNG")
+    acc.count("prime_candidates_checked", len(cands))
+    acc.seen("classes", ("number.getPrime/full-size", (N - 1) % 8, kind))
+    acc.seen("configs", ("getprimebig", N, kind))
+
+
+STRONG_KINDS = ("zero", "one", "bound-1", "bound", "bound+1", "bound+1,ones,bound", "ones", "zero/dirty-low-bits", "stream")
+
+
+def check_strongprime(N, e, kind, acc):
+    from Crypto.Util import number
+    from ..ref import nt
+    from ._c18_targets import _NumberSpy
+    import math
+    x = (N - 512) >> 7
+    lower = (14142135623730950489 * (2 ** (511 + 128 * x))) // 10000000000000000000
+    upper = (1 << (512 + 128 * x)) - 1
+    nm = upper - lower - 1
+    head, lit = (b"", None) if kind == "stream" else legacy_heads(nm)[kind]
+    label = _label("strongprime", N, e, kind)
+    ck = _Chk("number.getStrongPrime", "Crypto.Util.number.getStrongPrime(%d, e=%d, randfunc=tape[%s])" % (N, e, kind),
+              {"part": "consumer", "spec": ["strongprime", N, e, kind]}, acc)
+
+    def op(f):
+        with _NumberSpy("getRandomNBitInteger", "getRandomRange") as spy:
+            try:
+                r = int(number.getStrongPrime(N, e, 1e-6, f))
+            except RuntimeError as ex:
+                r = ("RuntimeError", str(ex))
+        return r, [s for s in spy.seen if s[0] == "getRandomNBitInteger" or s[1][:2] == (lower, upper)]
+    acc.count("evaluations", 2)
+    (p, seen), f1, _, sysn = observe(op, head, label)
+    (p2, seen2), f2, _, _ = observe(op, head, label)
+    if f1.total == 0:
+        return ck.viol("randfunc-ignored", "the supplied entropy source was never read")
+    if p != p2 or seen != seen2:
+        return ck.viol("not-a-function-of-the-tape", "the same tape twice gave two different results (or internal draws)")
+    xs = [s for s in seen if s[0] == "getRandomRange"]
+    ys = [s[2] for s in seen if s[0] == "getRandomNBitInteger"]
+    if len(xs) != 1 or len(ys) != 2:
+        acc.error("%s: recorder saw %d X draws and %d y draws" % (ck.name, len(xs), len(ys)))
+        return
+    X = xs[0][2]
+    acc.count("recorded_legacy_draws", 3)
+    if not lower <= X < upper:
+        return ck.viol("internal-draw/out-of-range", "the starting point X lies outside [sqrt(2)*2^(N-1), 2^N-1)")
+    fr = Feed(head, label)
+    if X != lower + ref_legacy_range(nm, fr):
+        return ck.viol("internal-draw/differs-from-reference-rejection-sampler", "X differs from the plain (legacy byte order) rejection "
+                       "sampler on the same bytes")
+    if lit is not None and X != lower + lit:
+        return ck.viol("wrong-offset", "boundary tape must give X = lower bound + %s" % short(lit))
+    for y in ys:
+        if y.bit_length() != 101:
+            return ck.viol("internal-draw/out-of-range", "getRandomNBitInteger(101) returned a %d-bit number" % y.bit_length())
+    if isinstance(p, tuple):
+        # the search starts at X +- (up to p1*p2 ~ 2^202) and gives up at 2^N ("TODO: maybe we shouldn't abort" in the source):
+        # only reachable when X is within 2^-300 of the upper edge
+        acc.observe("number.getStrongPrime raises RuntimeError when the drawn starting point lies within p1*p2 of 2^N "
+                    "(boundary tapes only; probability < 2^-300 with uniform entropy): no value is produced")
+        acc.seen("classes", ("number.getStrongPrime", N, "gives-up-at-the-upper-edge", kind))
+        acc.seen("configs", ("strongprime", N, e, kind))
+        return
+    if p.bit_length() != N:
+        return ck.viol("out-of-range", "getStrongPrime(%d) returned a %d-bit number" % (N, p.bit_length()))
+    if not nt.is_prime(p):
+        return ck.viol("not-prime", "the result %s is not a prime" % short(p))
+    if e and math.gcd(e, (p - 1) if e & 1 else (p - 1) // 2) != 1:
+        return ck.viol("not-coprime-to-e", "p-1 is not coprime to e=%d" % e)
+    p1, p2_ = [nt.next_prime(y - 1) for y in ys]
+    if (p - 1) % p1 or (p + 1) % p2_:
+        acc.observe("number.getStrongPrime: p-1 / p+1 are not divisible by the two auxiliary primes found from the 101-bit draws")
+    acc.seen("classes", ("number.getStrongPrime", N, "accepted" if lit is not None and "," not in kind else "other", kind))
+    acc.seen("configs", ("strongprime", N, e, kind))
+
+
+_ELG = {}
+
+
+def _elg_first(bits):
+    """first pass: ElGamal.generate on the plain deterministic stream -> (p, g, bytes consumed before the private key was drawn)"""
+    r = _ELG.get(bits)
+    if r is None:
+        from Crypto.PublicKey import ElGamal
+        flog = []
+        feed = Feed(b"", _label("elgamal", bits), flog)
+        with Tripwire() as tw:
+            with Recorder(flog) as rec:
+                key = ElGamal.generate(bits, feed)
+        last = rec.calls[-1]
+        data = b"".join(flog)
+        if last[0] != "random_range" or not data.endswith(last[4]):
+            raise RuntimeError("ElGamal.generate: unexpected draw structure")
+        r = _ELG[bits] = (int(key.p), int(key.g), int(key.x), data[:len(data) - len(last[4])], list(rec.calls))
+    return r
+
+
+def check_elgamal(bits, kind, acc):
+    """ElGamal.generate: the tape is the first pass's bytes up to the private-key draw, then the boundary head for x"""
+    from Crypto.PublicKey import ElGamal
+    from ..ref import nt
+    ck = _Chk("ElGamal.generate", "ElGamal.generate(%d, randfunc=tape[prefix of a recorded run + %s])" % (bits, kind),
+              {"part": "consumer", "spec": ["elgamal", bits, kind]}, acc)
+    try:
+        p, g, x0, prefix, calls0 = _elg_first(bits)
+    except RuntimeError as ex:
+        acc.error(str(ex))
+        return
+    if kind == "first-pass":
+        acc.count("evaluations")
+        if p.bit_length() != bits or not nt.is_prime(p) or not nt.is_prime(p >> 1):
+            return ck.viol("out-of-range", "p is not a %d-bit safe prime" % bits)
+        if not 2 <= x0 <= p - 2:
+            return ck.viol("out-of-range", "private key x outside [2, p-2]")
+        if g in (1, 2) or pow(g, p >> 1, p) != 1:
+            return ck.viol("generator", "g is 1, 2 or not of order q")
+        if ck.calls(calls0):
+            acc.seen("classes", ("ElGamal.generate", bits, "first-pass"))
+            acc.seen("configs", ("elgamal", bits, kind))
+        return
+    nm = p - 4
+    head, lit = boundary_heads(nm)[kind]
+    label = _label("elgamal2", bits, kind)
+    acc.count("evaluations")
+    key, f1, calls, sysn = observe(lambda f: ElGamal.generate(bits, f), prefix + head, label)
+    if (int(key.p), int(key.g)) != (p, g):
+        return ck.viol("not-a-function-of-the-tape", "the same tape prefix gave a different modulus or generator")
+    x = int(key.x)
+    if not 2 <= x <= p - 2:
+        return ck.viol("out-of-range", "private key x outside [2, p-2] (x-2=%s, p-2-x=%s)" % (short(x - 2), short(p - 2 - x)))
+    fr = Feed(prefix + head, label)
+    fr(len(prefix))
+    xref = ref_random_range(2, p - 2, fr)
+    if x != xref:
+        return ck.viol("differs-from-reference-rejection-sampler", "x differs from the plain rejection sampler on the same bytes")
+    if lit is not None and x != 2 + lit:
+        return ck.viol("wrong-offset", "boundary tape must give x = 2 + %s, got %s" % (short(lit), short(x)))
+    if int(key.y) != pow(g, x, p):
+        return ck.viol("public-key-mismatch", "y != g^x mod p")
+    if not ck.calls(calls):
+        return
+    if sysn:
+        acc.observe("ElGamal.generate consulted the process-wide RNG (key unaffected)")
+    acc.seen("classes", ("ElGamal.generate", bits, "accepted" if lit is not None and "," not in kind else "rejected-first", "dirty" in kind))
+    acc.seen("configs", ("elgamal", bits, kind))
+
+
+def check_elgblind(bits, kind, acc):
+    """ElGamalKey._decrypt draws its blinding factor r in [2, p-2] from the key's entropy source (both the process RNG
+    of a constructed key and ElGamalKey(randfunc=...) are driven)"""
+    from Crypto.PublicKey import ElGamal
+    ck = _Chk("blinding/ElGamal", "ElGamal decryption with the blinding factor drawn from tape[%s]" % kind,
+              {"part": "consumer", "spec": ["elgblind", bits, kind]}, acc)
+    try:
+        p, g, x, _, _ = _elg_first(bits)
+    except RuntimeError as ex:
+        acc.error(str(ex))
+        return
+    y = pow(g, x, p)
+    head, lit = boundary_heads(p - 4)[kind]
+    label = _label("elgblind", bits, kind)
+    M = 2 + seeded_int("c18/elg-m", bits - 8)
+    K = 3 + 2 * seeded_int("c18/elg-k", bits - 8)
+    key = ElGamal.construct((p, g, y, x))
+    ct = key._encrypt(M, K)
+    if ct != [pow(g, K, p), pow(y, K, p) * M % p]:
+        acc.error("ElGamal encryption differs from the textbook formula")
+        return
+    acc.count("evaluations", 2)
+    pt, f, calls, sysn = observe(lambda f: key._decrypt(ct), b"", label, sys_head=head)
+    key2 = ElGamal.ElGamalKey(randfunc=None)
+    for c_ in "pgyx":
+        setattr(key2, c_, getattr(key, c_))
+
+    def op2(f):
+        key2._randfunc = f
+        return key2._decrypt(ct)
+    pt2, f2, calls2, sysn2 = observe(op2, head, label)
+    for tag, ptx, cl in (("process RNG", pt, calls), ("randfunc", pt2, calls2)):
+        if ptx != M:
+            return ck.viol("result-depends-on-blinding", "decryption gives a wrong plaintext when the blinding factor is drawn from the boundary tape (%s)" % tag)
+        blind = [c for c in cl if c[0] == "random_range"]
+        if not blind:
+            acc.error("%s: recorder saw no blinding draw (%s)" % (ck.name, tag))
+            return
+        if not ck.calls(cl):
+            return
+        b = blind[0]
+        if not 2 <= b[3] <= p - 2:
+            return ck.viol("out-of-range", "blinding factor outside [2, p-2]")
+        if lit is not None and b[3] != 2 + lit:
+            return ck.viol("wrong-offset", "blinding factor for the boundary tape is %s, expected 2+%s (%s)" % (short(b[3]), short(lit), tag))
+    acc.seen("classes", ("blinding", "ElGamal", "accepted" if lit is not None and "," not in kind else "rejected-first"))
+    acc.seen("configs", ("elgblind", bits, kind))
+
+
+HPKE_CURVES = ("p256", "p384", "p521", "curve25519", "curve448")
+
+
+def check_hpke(curve, kind, acc):
+    """HPKE sender: the ephemeral key pair is generated from the process RNG; enc must be the public key of the
+    scalar the plain rejection sampler draws from the same bytes"""
+    from Crypto.PublicKey import ECC
+    from Crypto.Protocol import HPKE
+    from ..ref import ec as REC
+    ck = _Chk("HPKE-ephemeral-key", "HPKE.new(receiver_key=%s public key) with the process RNG answering from tape[%s]" % (curve, kind),
+              {"part": "consumer", "spec": ["hpke", curve, kind]}, acc)
+    label = _label("hpke", curve, kind)
+    if curve in P_CURVES:
+        c = REC.CURVES[curve]
+        n = c.order
+        head, lit = boundary_heads(n - 2)[kind]
+        dr = 1 + seeded_int("c18/hpke-key/" + curve, n.bit_length() + 64) % (n - 1)
+        rkey = ECC.construct(curve=curve, d=dr)
+        fr = Feed(head, label + "/system")
+        d = ref_random_range(1, n - 1, fr)
+        Q = REC.mul(c, d, c.G)
+        L = (c.p.bit_length() + 7) // 8
+        exp = b"\x04" + int(Q[0]).to_bytes(L, "big") + int(Q[1]).to_bytes(L, "big")
+    else:
+        L = SEED_CURVES[curve]
+        head = _value_head(kind, L, "c18/hpke/" + curve)
+        lit = None
+        rkey = ECC.construct(curve=curve, seed=seeded("c18/hpke-key/" + curve, L))
+        exp = {"curve25519": REC.x25519_base, "curve448": REC.x448_base}[curve](head)
+
+    def op(f):
+        s = HPKE.new(receiver_key=rkey.public_key(), aead_id=HPKE.AEAD.AES128_GCM, info=b"C18")
+        return s.enc, s.seal(b"C18 message")
+    acc.count("evaluations", 2)
+    (enc, ct), f, calls, sysn = observe(op, b"", label, sys_head=head)
+    (enc2, ct2), _, _, _ = observe(op, b"", label, sys_head=head)
+    if sysn == 0:
+        acc.error("%s: the process RNG was never consulted" % ck.name)
+        return
+    if (enc, ct) != (enc2, ct2):
+        return ck.viol("not-a-function-of-the-tape", "the same process-RNG tape twice gave two different encapsulations")
+    if enc != exp:
+        return ck.viol("ephemeral-key-differs-from-reference-rejection-sampler",
+                       "enc %s is not the public key of the scalar the plain rejection sampler draws from the same bytes (%s)"
+                       % (short(enc), short(exp)))
+    if not ck.calls(calls):
+        return
+    r = HPKE.new(receiver_key=rkey, aead_id=HPKE.AEAD.AES128_GCM, info=b"C18", enc=enc)
+    if r.unseal(ct) != b"C18 message":
+        return ck.viol("receiver-disagrees", "the receiver does not recover the message sealed under the boundary ephemeral key")
+    if curve in P_CURVES:
+        acc.seen("classes", ("HPKE-ephemeral-key", curve, "accepted" if lit is not None and "," not in kind else "rejected-first", "dirty" in kind))
+    else:
+        acc.seen("classes", ("HPKE-ephemeral-key", curve, "seed", kind))
+    acc.seen("configs", ("hpke", curve, kind))
+
+
 def check_consumer(spec, acc):
     from ..common import exc_site
     acc.count("configs_done")
@@ -584,5 +1069,23 @@ def _check_consumer(spec, acc):
         check_bigrange(spec[1], spec[2], spec[3], spec[4], spec[5], spec[6], acc)
     elif k == "bigrandom":
         check_bigrandom(spec[1], spec[2], spec[3], spec[4], acc)
+    elif k == "mrbig":
+        check_mrbig(spec[1], spec[2], acc)
+    elif k == "isprime":
+        check_isprime(spec[1], spec[2], acc)
+    elif k == "probprime":
+        check_probprime(spec[1], spec[2], acc)
+    elif k == "safeprime":
+        check_probprime(spec[1], spec[2], acc, safe=True)
+    elif k == "getprimebig":
+        check_getprimebig(spec[1], spec[2], acc)
+    elif k == "strongprime":
+        check_strongprime(spec[1], spec[2], spec[3], acc)
+    elif k == "elgamal":
+        check_elgamal(spec[1], spec[2], acc)
+    elif k == "elgblind":
+        check_elgblind(spec[1], spec[2], acc)
+    elif k == "hpke":
+        check_hpke(spec[1], spec[2], acc)
     else:
         raise ValueError(spec)
